@@ -663,10 +663,11 @@ func (w *world) await(r *subRec, where string) {
 			}
 			if !pruned && w.lw.starved() && refuted == "" {
 				w.count("inconclusive_starved")
+				logged := loggedTimeouts(w.aid(r.id))
 				w.mu.Lock()
 				w.notes = append(w.notes, fmt.Sprintf("scripts (inconclusive, process starved: a 1 ms sleeper overslept %v): %s: subscriber actor %d, still subscribed and reading, "+
-					"was not told about %d completed publish(es) (first: %q by actor %d) within %v and its channel stayed open",
-					gotime.Duration(w.lw.max.Load()), where, r.id, len(pend), pend[0].tag, pend[0].id, waitCap))
+					"was not told about %d completed publish(es) (first: %q by actor %d) within %v and its channel stayed open; failed sends to this watcher in the publisher's log: %d",
+					gotime.Duration(w.lw.max.Load()), where, r.id, len(pend), pend[0].tag, pend[0].id, waitCap, logged))
 				w.mu.Unlock()
 				return
 			}
